@@ -775,6 +775,10 @@ func main() {
 		genGoSrc(load(os.Args[1]), os.Args[2])
 		return
 	}
+	if len(os.Args) == 4 && os.Args[3] == "joins" {
+		genJoins(load(os.Args[1]), os.Args[2])
+		return
+	}
 	if len(os.Args) == 4 && os.Args[3] == "clonesrc" {
 		// Go → SJ.Own printer for Clone (child process, same reason)
 		genCloneSrc(load(os.Args[1]), os.Args[2])
@@ -798,6 +802,12 @@ func main() {
 		reason := strings.TrimSpace(string(msg))
 		writeIfChanged(filepath.Join(out, "Stage2Table.lean"), header+"namespace SJ.Generated\n\n/-- the translator of `unifiedMachine` refused the source -/\ndef stage2TableRefused : String := "+strconv.Quote(reason)+"\n\nend SJ.Generated\n")
 		fmt.Fprintln(os.Stderr, "stage2table: translator refused the source: "+reason)
+	}
+	cmd = exec.Command(os.Args[0], repo, out, "joins")
+	if msg, err := cmd.CombinedOutput(); err != nil {
+		reason := strings.TrimSpace(string(msg))
+		writeIfChanged(filepath.Join(out, "GoJoins.lean"), header+"namespace SJ.Generated\n\n/-- the join-discipline printer refused the source of Deserialize -/\ndef goJoinsRefused : String := "+strconv.Quote(reason)+"\n\nend SJ.Generated\n")
+		fmt.Fprintln(os.Stderr, "joins: translator refused the source: "+reason)
 	}
 	cmd = exec.Command(os.Args[0], repo, out, "clonesrc")
 	if msg, err := cmd.CombinedOutput(); err != nil {
